@@ -7,6 +7,8 @@ import (
 	"compress/gzip"
 	"fmt"
 	"io"
+	"strconv"
+	"strings"
 
 	"github.com/xi2/xz"
 )
@@ -56,6 +58,13 @@ func Decompress(stream io.Reader) (io.Reader, error) {
 	}
 
 	compression := DetectCompression(bs)
+	// The magic numbers are only a hint: an uncompressed tar begins with the *name* of its first entry, which
+	//  may begin with the very same bytes ("BZhello.txt").  A first block that checks out as a tar header is one.
+	if compression != Uncompressed {
+		if block, _ := buf.Peek(512); isTarHeader(block) {
+			compression = Uncompressed
+		}
+	}
 	switch compression {
 	case Uncompressed:
 		return buf, nil
@@ -68,4 +77,30 @@ func Decompress(stream io.Reader) (io.Reader, error) {
 	default:
 		return nil, fmt.Errorf("Unsupported compression format %s", (&compression).Extension())
 	}
+}
+
+// Does this block carry a valid tar header checksum?
+//  (The checksum field is six octal digits at offset 148; the sum counts that field as spaces.
+//  Some historical tars summed signed bytes; both are accepted, as archive/tar does.)
+func isTarHeader(block []byte) bool {
+	if len(block) < 512 {
+		return false
+	}
+	field := strings.Trim(string(block[148:156]), " \x00")
+	if field == "" {
+		return false
+	}
+	want, err := strconv.ParseInt(field, 8, 64)
+	if err != nil {
+		return false
+	}
+	var unsigned, signed int64
+	for i, c := range block[:512] {
+		if 148 <= i && i < 156 {
+			c = ' '
+		}
+		unsigned += int64(c)
+		signed += int64(int8(c))
+	}
+	return want == unsigned || want == signed
 }
